@@ -322,4 +322,37 @@ inline std::string format_exact(const char* f, ...) {
   return r;
 }
 
+// ------------------------------------------------------------------ enumeration helpers
+inline uint64_t pow_sum(uint64_t base, unsigned maxlen) {  // number of strings of length 0..maxlen
+  uint64_t t = 0, p = 1;
+  for (unsigned k = 0; k <= maxlen; k++) {
+    t += p;
+    p *= base;
+  }
+  return t;
+}
+
+// idx -> string over alphabet (shorter strings first)
+inline void decode(uint64_t idx, const char* alpha, unsigned base, std::string& out) {
+  unsigned len = 0;
+  uint64_t p = 1;
+  while (idx >= p) {
+    idx -= p;
+    p *= base;
+    len++;
+  }
+  out.resize(len);
+  for (unsigned k = 0; k < len; k++) {
+    out[len - 1 - k] = alpha[idx % base];
+    idx /= base;
+  }
+}
+
+inline std::wstring widen(const std::string& s) {
+  std::wstring w(s.size(), L'\0');
+  for (size_t i = 0; i < s.size(); i++) w[i] = (wchar_t)(unsigned char)s[i];
+  return w;
+}
+
+
 }  // namespace c08ref
